@@ -358,7 +358,14 @@ class RealFP(SymFP):
     harness that uses it); sqrt/exp/pow/log are uninterpreted with their defining real-number facts; every division records the
     obligation that its denominator is non-zero (a zero denominator is an inf/NaN in the real code)."""
     def __init__(s, **kw):
-        SymFP.__init__(s, strict=True); s.div_obl = []; s.real_model = True
+        SymFP.__init__(s, strict=True); s.div_obl = []; s.real_model = True; s.abs_uf = kw.get('abs_uf', False)
+    def fabs(s, a):
+        # abs_uf: |a| as a fresh symbol with its complete definition (t >= 0, t = a or t = -a by the sign of a) instead of an ite, so that
+        # products of absolute values stay monomials whose sign z3's nonlinear core knows (C17-E4)
+        if not s.abs_uf: return SymFP.fabs(s, a)
+        a = z3.simplify(a); f = s.uf('fabs', 1); t = f(a)
+        if s.reg(t): s.ax.append(t >= 0); s.ax.append(z3.Implies(a >= 0, t == a)); s.ax.append(z3.Implies(a <= 0, t == -a))
+        return t
     def fmul(s, a, b): return z3.simplify(a * b)
     def fadd(s, a, b): return z3.simplify(a + b)
     def fdiv(s, a, b):
